@@ -117,7 +117,26 @@ def guard_ok(cond, x):
     return lo and hi, "; ".join(why)
 
 
-def exclusion_ok(cond, x):
+def nan_excluded_by(cond, x):
+    """cond (true) implies x is not NaN: one of its conjuncts is an exact integrality test of x or of the value x is the floor/trunc of
+    (v - floor(v) == 0.0 is false for NaN and for the infinities)"""
+    from .c18 import integral_test
+    conj = []
+
+    def flat(c):
+        if isinstance(c, tuple) and c and c[0] == "op" and c[1] == "and":
+            flat(c[3])
+            flat(c[4])
+        else:
+            conj.append(c)
+    flat(cond)
+    cands = [x]
+    if isinstance(x, tuple) and len(x) == 3 and x[0] == "call" and x[1] in ("f64::floor", "f64::trunc", "f64::round", "f64::ceil"):
+        cands.append(x[2])
+    return any(integral_test(c, v) for c in conj for v in cands)
+
+
+def exclusion_ok(cond, x, nan_excluded=False):
     """the else-branch of `if cond`: (not cond) implies -2^63 <= x < 2^63.  cond must be a disjunction that is true for
     NaN, for x >= 2^63 and for x < -2^63 (comparisons alone are all false for NaN, so a NaN test is required)."""
     dis = []
@@ -131,7 +150,8 @@ def exclusion_ok(cond, x):
     flat(cond)
     if len(dis) < 2:
         return False, ""
-    hi = lo = nan = False
+    hi = lo = False
+    nan = nan_excluded
     for c in dis:
         if c in (("call", "f64::is_nan", x), ("op", "ne", "f64", x, x), ("un", "not", "bool", ("call", "f64::is_finite", x))):
             nan = True
@@ -172,13 +192,14 @@ def cast_guard_rule(run, term, wherestr, keyprefix):
             n[0] += 1
             x = node[3]
             ok, why = False, "cast is not inside the then-branch of a range guard"
+            not_nan = any(p[0] == "if" and len(p) == 4 and i == 2 and nan_excluded_by(p[1], x) for (p, i) in anc)
             for (p, i) in anc:
                 if p[0] == "if" and len(p) == 4 and i == 2:
                     ok, why = guard_ok(p[1], x)
                     if ok:
                         break
                 if p[0] == "if" and len(p) == 4 and i == 3:
-                    ok, why2 = exclusion_ok(p[1], x)
+                    ok, why2 = exclusion_ok(p[1], x, nan_excluded=not_nan)
                     if ok:
                         break
                     why = why2 or why
